@@ -106,8 +106,11 @@ func checkRender(t run.TB, c RenderCase) (judged bool) {
 	}
 	if w.TextDefined {
 		want := w.Text
-		if len(want) > 200 || len(text) > 200 {
-			// truncated at 200 bytes: a prefix of the line followed by "..."
+		rawLen := w.LineEnd - w.LineStart
+		if len(want) > 200 || len(text) > 200 || (rawLen > 200 && text != want) {
+			// truncated at 200 bytes: a prefix of the line followed by "..." (whether the 200 bytes are
+			// counted before or after the left-trim is not stated: a line that is longer than 200
+			// bytes only with its leading blanks may be shown either way)
 			if !strings.HasSuffix(text, "...") || !strings.HasPrefix(want, strings.TrimSuffix(text, "...")) || len(text) > 203 {
 				run.Fail(t, chkRender, c, "long line: SourceSubString()=%q (%d bytes) is not a <=200-byte prefix of the line plus \"...\"", text, len(text))
 			}
@@ -128,6 +131,17 @@ func checkRender(t run.TB, c RenderCase) (judged bool) {
 		dashes := len(last) - len("\t--") - 1
 		if dashes != w.Caret {
 			run.Fail(t, chkRender, c, "caret is under column %d of the shown line, the offending byte is at column %d", dashes, w.Caret)
+		}
+	} else if c.Pos >= w.LineStart && c.Pos < w.LineEnd && !strings.HasSuffix(text, "...") {
+		// outside the zone the statement fixes (an all-blank line is shown as it is): whatever part
+		// of the line is shown, the caret must stand under the offending byte of the shown text
+		raw := string(b[w.LineStart:w.LineEnd])
+		if strings.HasSuffix(raw, text) {
+			col := (c.Pos - w.LineStart) - (len(raw) - len(text))
+			dashes := len(last) - len("\t--") - 1
+			if col >= 0 && dashes != col {
+				run.Fail(t, chkRender, c, "the shown text is %q and the caret is under its column %d; the offending byte is its column %d", text, dashes, col)
+			}
 		}
 	}
 	return true
@@ -179,13 +193,20 @@ func TestRenderRandom(t *testing.T) {
 		nlines := rapid.IntRange(1, 8).Draw(t, "lines")
 		var sb strings.Builder
 		for i := 0; i < nlines; i++ {
-			sb.WriteString(strings.Repeat(rapid.SampledFrom([]string{" ", "\t", ""}).Draw(t, "lead"), rapid.IntRange(0, 6).Draw(t, "nlead")))
+			lead := strings.Repeat(rapid.SampledFrom([]string{" ", "\t", ""}).Draw(t, "lead"), rapid.IntRange(0, 6).Draw(t, "nlead"))
+			sb.WriteString(lead)
 			l := rapid.IntRange(0, 30).Draw(t, "len")
+			chars := []string{"a", "b", " ", "{", "\"", "é", "€", "x", "\t"}
 			if rapid.IntRange(0, 5).Draw(t, "long") == 0 {
 				l = rapid.IntRange(190, 420).Draw(t, "longLen")
+				if rapid.Bool().Draw(t, "atLimit") {
+					// raw line lengths around the 200-byte limit, byte-exact (single-byte characters)
+					l = rapid.IntRange(197, 204).Draw(t, "limitLen") - len(lead)
+					chars = []string{"a", "b", "x", "{"}
+				}
 			}
 			for k := 0; k < l; k++ {
-				sb.WriteString(rapid.SampledFrom([]string{"a", "b", " ", "{", "\"", "é", "€", "x", "\t"}).Draw(t, "ch"))
+				sb.WriteString(rapid.SampledFrom(chars).Draw(t, "ch"))
 			}
 			if i < nlines-1 || rapid.Bool().Draw(t, "finalNL") {
 				sb.WriteString(nl)
